@@ -90,3 +90,122 @@ Proof.
   destruct (cur (tr_er w)) as [[s1 src] rt]. cbn [fst snd] in *. subst s1. rewrite N.eqb_refl. split; reflexivity.
 Qed.
 End WR.
+
+(* ================================================================================================================ *)
+(* local data lives on live entities only (closed invariant): the datum of an entity goes when the entity goes        *)
+Definition xv (w : world) := (alive w, xlocals w).
+Definition XInv (w : world) : Prop := forall x e v, alookup2 x e (xlocals w) = Some v -> is_alive e w = true.
+Lemma XInv_xv w w' : xv w' = xv w -> XInv w -> XInv w'.
+Proof. unfold xv, XInv, is_alive. intros H. inversion H as [[H1 H2]]. rewrite H1, H2. auto. Qed.
+Lemma xv_handle_drop h w : xv (handle_drop h w) = xv w.
+Proof.
+  destruct h as [s|g s]; cbn; [reflexivity|]. unfold sig_drop.
+  destruct (alookup g (sigs w)) as [[e n]|]; [|reflexivity]. destruct (N.leb n 1); reflexivity.
+Qed.
+Lemma xv_handle_clone h w : xv (handle_clone h w) = xv w.
+Proof. destruct h as [s|g s]; cbn; [reflexivity|]. unfold sig_clone. destruct (alookup g (sigs w)) as [[e n]|]; reflexivity. Qed.
+Lemma xv_handles_drop hs : forall w, xv (handles_drop hs w) = xv w.
+Proof. induction hs as [|h hs IH]; intros w; cbn; [reflexivity|]. rewrite IH. apply xv_handle_drop. Qed.
+Lemma xv_push_removed_all cs e : forall w, xv (push_removed_all cs e w) = xv w.
+Proof. induction cs as [|c cs IH]; intros w; cbn; [reflexivity|]. rewrite IH. reflexivity. Qed.
+Lemma xv_drop_callback t w : xv (drop_callback t w) = xv w.
+Proof. unfold drop_callback. destruct (alookup t (cbs w)) as [cb|]; [destruct (cb_live cb)|]; reflexivity. Qed.
+Lemma xv_drop_ddata d w : xv (drop_ddata d w) = xv w.
+Proof. destruct d as [? ? ?|? ? ? ?|? [?|]]; reflexivity. Qed.
+Lemma xv_take_sysevents tys : forall w, xv (snd (take_sysevents tys w)) = xv w.
+Proof.
+  induction tys as [|ty r IH]; intros w; cbn [take_sysevents]; [reflexivity|].
+  destruct (peek_sysevent ty w) as [p|]; [|apply IH].
+  match goal with |- context [take_sysevents r ?w1] => specialize (IH w1); destruct (take_sysevents r w1) end. exact IH.
+Qed.
+Lemma xv_sample_readers sd x w : xv (snd (sample_readers sd x w)) = xv w.
+Proof.
+  unfold sample_readers. pose proof (xv_take_sysevents TYPES w) as H1.
+  destruct (sd_take sd); [destruct (take_sysevents TYPES w) as [s w1]; exact H1|reflexivity].
+Qed.
+Lemma xv_revoke_one s t w : xv (revoke_one s t w) = xv w.
+Proof.
+  assert (Hent : forall e rt, xv (if is_alive e w then
+             match alookup e (ereactors w) with
+             | Some l => let (d, k) := er_remove rt s l in handles_drop d (w <| ereactors := aset e k (ereactors w) |>)
+             | None => w end else w) = xv w).
+  { intros e rt. destruct (is_alive e w); [|reflexivity]. destruct (alookup e (ereactors w)) as [l|]; [|reflexivity].
+    destruct (er_remove rt s l) as [d k]. rewrite xv_handles_drop. reflexivity. }
+  assert (Hcomp : forall kd c, xv (comp_revoke kd c s w) = xv w).
+  { intros kd c. unfold comp_revoke. destruct (alookup c (comp_tbl w)) as [[[i m] r]|]; [|reflexivity].
+    destruct (remove_first s match kd with KIns => i | KMut => m | KRem => r end) as [o l'].
+    destruct (match kd with KIns => (l', m, r) | KMut => (i, l', r) | KRem => (i, m, l') end) as [[i' m'] r'].
+    destruct o as [h|]; [rewrite xv_handle_drop|]; (destruct i'; [destruct m'; [destruct r'|]|]); reflexivity. }
+  destruct t; cbn [revoke_one]; try apply Hent; try apply Hcomp.
+  - destruct (tbl_revoke ty s (bc_tbl w)) as [o t']. destruct o; [rewrite xv_handle_drop|]; reflexivity.
+  - destruct (tbl_revoke ty s (any_tbl w)) as [o t']. destruct o; [rewrite xv_handle_drop|]; reflexivity.
+  - destruct (tbl_revoke r s (res_tbl w)) as [o t']. destruct o; [rewrite xv_handle_drop|]; reflexivity.
+  - destruct (tbl_revoke e s (desp_tbl w)) as [o t']. destruct o; [rewrite xv_handle_drop|]; reflexivity.
+Qed.
+Lemma xv_revoke_all s ts : forall w, xv (revoke_all s ts w) = xv w.
+Proof. induction ts as [|t ts IH]; intros w; cbn; [reflexivity|]. rewrite IH. apply xv_revoke_one. Qed.
+Lemma xv_reg_triggers_cmds h ts : forall w, xv (fst (reg_triggers_cmds h ts w)) = xv w.
+Proof.
+  induction ts as [|t ts IH]; intros w; cbn [reg_triggers_cmds]; [reflexivity|].
+  destruct (reg_trigger_cmds h t w) as [w1 c1] eqn:E1. destruct (reg_triggers_cmds h ts w1) as [w2 c2] eqn:E2. cbn [fst].
+  assert (H1 : xv w1 = xv w).
+  { destruct t; cbn in E1; try (inversion E1; subst; apply xv_handle_clone).
+    destruct (is_alive e w); inversion E1; subst; [apply xv_handle_clone|reflexivity]. }
+  specialize (IH w1). rewrite E2 in IH. cbn [fst] in IH. congruence.
+Qed.
+Lemma xv_poll_despawns chan : forall w, xv (fst (poll_despawns chan w)) = xv w.
+Proof.
+  induction chan as [|e r IH]; intros w; cbn [poll_despawns]; [reflexivity|].
+  specialize (IH (w <| desp_tbl := aremove e (desp_tbl w) |>)). destruct (poll_despawns r _) as [w2 cs]. exact IH.
+Qed.
+Lemma xv_poll w : xv (fst (poll w)) = xv w.
+Proof.
+  unfold poll. destruct (poll_removals (removal_checkers w) w) as [chk c1].
+  pose proof (xv_poll_despawns (despawn_chan (w <| removal_checkers := chk |>)) ((w <| removal_checkers := chk |>) <| despawn_chan := [] |>)) as H.
+  destruct (poll_despawns _ _) as [w2 c2]. exact H.
+Qed.
+Lemma xv_comp_push kd c h w : xv (comp_push kd c h w) = xv w.
+Proof. unfold comp_push. destruct (alookup c (comp_tbl w)) as [[[i m] r]|]; destruct kd; reflexivity. Qed.
+Lemma xv_dsp_comps e w : xv (dsp_comps e w) = xv w.
+Proof. unfold dsp_comps. etransitivity; [|apply (xv_push_removed_all (comps_of e (comps w)) e w)]. reflexivity. Qed.
+Lemma xv_dsp_storage e w : xv (dsp_storage e w) = xv w.
+Proof.
+  unfold dsp_storage. destruct (alookup e (storage w)) as [[|]|]; try reflexivity.
+  etransitivity; [|apply (xv_drop_callback e w)]. reflexivity.
+Qed.
+Lemma xv_dsp_ereactors e w : xv (dsp_ereactors e w) = xv w.
+Proof.
+  unfold dsp_ereactors. destruct (alookup e (ereactors w)) as [l|]; [|reflexivity].
+  etransitivity; [|apply (xv_handles_drop (map snd l) w)]. reflexivity.
+Qed.
+Lemma xv_dsp_tracker e w : xv (dsp_tracker e w) = xv w.
+Proof. unfold dsp_tracker. destruct (memN e (dtrackers w)); reflexivity. Qed.
+Lemma xv_dsp_data e w : xv (dsp_data e w) = xv w.
+Proof.
+  unfold dsp_data. destruct (alookup e (dataents w)) as [d|]; [|reflexivity].
+  etransitivity; [|apply (xv_drop_ddata d w)]. reflexivity.
+Qed.
+Lemma xv_dsp_alive_xlocals e w : xlocals (dsp_alive e w) = xlocals w. Proof. reflexivity. Qed.
+Lemma xv_reserve_xlocals id w : xlocals (reserve id w) = xlocals w.
+Proof. unfold reserve, bind_id. destruct (memN id (bound w)); reflexivity. Qed.
+Lemma alive_reserve_mono id w e : is_alive e w = true -> is_alive e (reserve id w) = true.
+Proof.
+  unfold reserve, bind_id, is_alive. destruct (memN id (bound w)); [auto|]. intros H. destruct (memN id (bound w)); cbn [alive set]; rewrite memN_app, H; reflexivity.
+Qed.
+Lemma XInv_reserve id w : XInv w -> XInv (reserve id w).
+Proof. intros H x e v Hl. rewrite xv_reserve_xlocals in Hl. apply alive_reserve_mono. eapply H; eauto. Qed.
+
+Lemma xlocals_without_other e x e' (l : list (N * N * N)) : e' <> e -> alookup2 x e' (xlocals_without e l) = alookup2 x e' l.
+Proof.
+  intros Hne. induction l as [|[[x0 e0] v0] l IH]; cbn [xlocals_without alookup2]; [reflexivity|].
+  destruct (N.eqb e e0) eqn:E.
+  - apply N.eqb_eq in E. subst e0. rewrite IH. destruct (N.eqb x x0 && N.eqb e' e) eqn:E2; [|reflexivity].
+    apply andb_true_iff in E2. destruct E2 as [_ E2]. apply N.eqb_eq in E2. contradiction.
+  - cbn [alookup2]. rewrite IH. reflexivity.
+Qed.
+Lemma xlocals_without_same e x (l : list (N * N * N)) : alookup2 x e (xlocals_without e l) = None.
+Proof.
+  induction l as [|[[x0 e0] v0] l IH]; cbn [xlocals_without alookup2]; [reflexivity|].
+  destruct (N.eqb e e0) eqn:E; [exact IH|]. cbn [alookup2]. rewrite E, andb_false_r. exact IH.
+Qed.
+
